@@ -471,6 +471,19 @@ const smallSchema = `@doc("n") namespace N { type T = { a: Long, "b c"?: Set<Str
   action g; action "a b", r in [g] appliesTo { principal: [E], resource: [F, En], context: { k: Long, o?: T } }; }
 entity Top; action top appliesTo { principal: Top, resource: Top };`
 
+// comments of every form, cut at every byte: the lexers' comment and string states
+const commentedSchema = `/** doc **/ // line comment
+namespace N { /* a
+   * decorated
+   **/ entity A /* x */ in [B] { "k\u{1F600}\n": Set<Long> /***/ }; // tail
+  entity B; /*/ */ action a appliesTo { principal: A, resource: B }; } /* trailing **/`
+
+const commentedPolicy = `// head
+@id("a\"\u{1F600}\n") // after annotation
+permit(principal == U::"a\\", action in [Action::"view"], resource is G in G::"g") // scope
+when { principal.k == 1 && "a*b" like "a\*b*" || context has "s t" }
+unless { ip("10.0.0.1").isIpv4() && -9223372036854775808 < 1 }; // end`
+
 // driver "totalbytes": every truncation and random byte edits of valid documents of every kind (text and JSON)
 func driveTotalBytes(seed int64, n int, params map[string]string) []Obj {
 	r := rand.New(rand.NewSource(seed))
@@ -487,7 +500,8 @@ func driveTotalBytes(seed int64, n int, params map[string]string) []Obj {
 		}
 		docs = append(docs, seedDoc{"policytext", cedar.NewPolicyFromAST((*pubast.Policy)(p)).MarshalCedar()})
 	}
-	docs = append(docs, seedDoc{"schematext", []byte(smallSchema)}, seedDoc{"uidtext", []byte(`NS::T::"a\"b\u{1F600}\n"`)},
+	docs = append(docs, seedDoc{"schematext", []byte(smallSchema)}, seedDoc{"schematext", []byte(commentedSchema)},
+		seedDoc{"policytext", []byte(commentedPolicy)}, seedDoc{"uidtext", []byte(`NS::T::"a\"b\u{1F600}\n"`)},
 		seedDoc{"request", []byte(`{"principal":{"type":"U","id":"a"},"action":{"__entity":{"type":"Action","id":"view"}},"resource":{"type":"G","id":"g"},"context":{"k":1,"s":[1,"a"]}}`)})
 	out := []Obj{}
 	add := func(kind string, b []byte) {
@@ -502,6 +516,10 @@ func driveTotalBytes(seed int64, n int, params map[string]string) []Obj {
 		step = atoi(params["step"])
 	}
 	for _, d := range docs {
+		step := step
+		if strings.HasSuffix(d.kind, "text") { // texts are short: every cut, so that no lexer state is skipped
+			step = 1
+		}
 		for cut := 0; cut <= len(d.doc); cut += step {
 			add(d.kind, d.doc[:cut])
 		}
